@@ -21,7 +21,7 @@ TNext == /\ ~done /\ l <= Len(Ev) /\ UNCHANGED tid
          /\ LET e == Ev[l]
                 c == IF e.outcome = "accepted" /\ ~(e.same_id /\ e.same_content)
                      THEN (IF e.same_id THEN "C06:altered_block_with_the_same_id_accepted" ELSE "C06:altered_block_accepted")
-                     ELSE IF e.outcome = "accepted" THEN "machinery:unaltered_block_in_tamper_trace"
+                     ELSE IF e.outcome = "accepted" THEN "C06:altered_bytes_decode_to_the_original_block_and_are_accepted"      \* the bytes offered always differ from the original's
                      ELSE ""
                 rule == IF e.outcome = "decode_error" THEN "decode" ELSE e.rule
             IN /\ (c = "" /\ e.bit >= 0 /\ rule \notin Protects(e.field) =>
